@@ -95,13 +95,33 @@ def build_world(ctx, rng, base, git):
             fp.write(b"g = 1\n")
         with open(os.fsencode(str(proj / "docs2")) + b"/na\xefve.ign", "wb") as fp:
             fp.write(b"g = 2\n")
+        # ignored only by the user's personal ignore file, which lives outside the repository
+        xdg = base / "xdg"
+        (xdg / "git").mkdir(parents=True)
+        (xdg / "git" / "ignore").write_text("*.scratch\n")
+        os.environ["XDG_CONFIG_HOME"] = str(xdg)
+        (proj / "notes.scratch").write_text("personal notes\n")
+        (proj / "docs2" / "tmp.scratch").write_text("t = 1\n")
         ignored = {"gen.ign", "build/out.py", "docs2/also.ign"}
         trees.git(top, "add", "-A", check=False)
         trees.git(top, "commit", "-q", "-m", "init", check=False)
+        if git != "outer":
+            # a submodule: its files are not the project's unless --include-submodules is given (it never is here)
+            src = base / "subsrc"
+            src.mkdir()
+            trees.git(src, "init", "-q")
+            (src / "lib.py").write_text("lib = 1\n")
+            trees.git(src, "add", ".")
+            trees.git(src, "commit", "-q", "-m", "sub")
+            r = trees.git(proj, "submodule", "add", "-q", str(src), "vendor/lib", check=False)
+            if r.returncode == 0:
+                trees.git(proj, "commit", "-q", "-m", "add submodule", check=False)
     covered = set(trees.spec_expect(recipe)["covered"]) | {"docs2/real.py", "readonly.py", "notes.unknownext", "docs2-legacy/old.py",
                                                             "docs2-legacy/deep/older.py", "docs2.cfg"}
     if git and git != "outer":
         covered.add(".gitignore")
+        if (proj / ".gitmodules").exists():
+            covered.add(".gitmodules")
     return proj, sent, recipe, covered, ignored
 
 
@@ -137,7 +157,8 @@ def pick_command(rng, proj, sent, recipe, covered, outdir):
             allowed |= {"proj/" + f, "proj/" + f + ".license"}
         return gl, ["annotate"] + opts + [str(proj / f) for f in files], allowed, "annotate-named"
     if r < 0.84:
-        dirs = rng.choice([["."], ["docs2"], [".", "docs2"], ["link_to_outside_dir"], ["src"] if (proj / "src").is_dir() else ["."]])
+        dirs = rng.choice([["."], ["docs2"], [".", "docs2"], ["link_to_outside_dir"], ["src"] if (proj / "src").is_dir() else ["."],
+                           ["vendor"] if (proj / "vendor").is_dir() else ["."]])
         opts = ["-c", "Jane", "-l", "MIT", "-r"] + rng.choice([["--fallback-dot-license"], ["--skip-unrecognised"], ["--force-dot-license"]])
         allowed = set()
         for d in dirs:
@@ -313,6 +334,7 @@ def run_case(case, ctx):
                     recipe["global_mode"] = "toml"
     finally:
         FS.active = False
+        os.environ.pop("XDG_CONFIG_HOME", None)
         shutil.rmtree(base, ignore_errors=True)
         shutil.rmtree(outdir, ignore_errors=True)
     return res.out()
